@@ -356,18 +356,47 @@ func identTerm(i, n int) string {
 
 func zTerm(v int64) string { return vlib.Z(v) }
 
+// bsTerm prints a byte string as (bstr "...") (decoded by Run/C17_run.v): printable characters stand for
+// themselves, '^' for the byte 0, "~hh" for any other byte. One string literal per byte string keeps the
+// case files fast to parse (numerals are slow to parse).
+func bsTerm(b []byte) string {
+	if len(b) == 0 {
+		return "[]"
+	}
+	var sb strings.Builder
+	sb.WriteString(`(bstr "`)
+	for _, x := range b {
+		switch {
+		case x == 0:
+			sb.WriteByte('^')
+		case x >= 0x20 && x < 0x7f && x != '"' && x != '~' && x != '^':
+			sb.WriteByte(x)
+		default:
+			fmt.Fprintf(&sb, "~%02x", x)
+		}
+	}
+	sb.WriteString(`"%bstr)`)
+	return sb.String()
+}
+func sTerm(s string) string { return bsTerm([]byte(s)) }
+func bssTerm(l []string) string {
+	t := make([]string, len(l))
+	for i, s := range l {
+		t[i] = bsTerm([]byte(s))
+	}
+	return vlib.List(t)
+}
+
 func msgTerm(p *pubsubproto.Publish, ident int, nAcc int, sigTerm string) string {
-	return vlib.App("mkMsg", strTerm(p.SpaceId), strTerm(p.Topic), vlib.Bytes(p.MsgId), strTerm(p.KeyId),
-		zTerm(p.TimestampMilli), vlib.Bytes(p.Payload), identTerm(ident, nAcc), sigTerm)
+	return vlib.App("mkMsg", sTerm(p.SpaceId), sTerm(p.Topic), bsTerm(p.MsgId), sTerm(p.KeyId),
+		zTerm(p.TimestampMilli), bsTerm(p.Payload), identTerm(ident, nAcc), sigTerm)
 }
 
 // sentinel: a genuine message on the private marker space; when its handler has run, everything that
 // was enqueued to the dispatch queue before it has been handed to the handlers.
 func (d *cliDriver) sentinel() (ev, ob string, err error) {
 	d.sentN++
-	id := make([]byte, 16)
-	copy(id, "~sentinel")
-	binary.LittleEndian.PutUint32(id[12:], uint32(d.sentN))
+	id := []byte(fmt.Sprintf("SENTINEL...%05d", d.sentN%100000))
 	p := &pubsubproto.Publish{SpaceId: markSpace, Topic: markTopic, MsgId: id, Identity: d.accs[0].identity}
 	data := pubsub.VerifSignData(p)
 	if p.Signature, err = d.accs[0].keys.SignKey.Sign(data); err != nil {
@@ -380,14 +409,14 @@ func (d *cliDriver) sentinel() (ev, ob string, err error) {
 	if err = d.feed(&pubsubproto.PubSubMessage{Content: &pubsubproto.PubSubMessage_Publish{Publish: p}}); err != nil {
 		return
 	}
-	ev = vlib.App("CRecv", zTerm(now), msgTerm(p, 0, len(d.accs), vlib.App("SigOf", "0", vlib.Bytes(data))))
+	ev = vlib.App("CRecv", zTerm(now), msgTerm(p, 0, len(d.accs), vlib.App("SigOf", "0", bsTerm(data))))
 	deadline := time.Now().Add(waitLong)
 	for {
 		d.mu.Lock()
 		got := d.markCnt - before
 		d.mu.Unlock()
 		if got > 0 {
-			ob = vlib.App("ORecv", "None", strsTerm([]string{markTopic}))
+			ob = vlib.App("ORecv", "None", bssTerm([]string{markTopic}))
 			return
 		}
 		if time.Now().After(deadline) {
@@ -427,11 +456,11 @@ func (g *gen) clientCase(h cliHist) {
 	}
 	// the marker subscription the sentinel uses is part of the history the model sees
 	d.mem.set(markSpace, d.accs[0].name, true)
-	add(vlib.App("CSetMember", strTerm(markSpace), "0", "true"), "ONoneC")
+	add(vlib.App("CSetMember", sTerm(markSpace), "0", "true"), "ONoneC")
 	if _, err := d.svc.Subscribe(markSpace, markTopic, d.handler(markSpace, markTopic)); err != nil {
 		panic(err)
 	}
-	add(vlib.App("CSub", strTerm(markSpace), strTerm(markTopic)), vlib.App("OSubR", "true"))
+	add(vlib.App("CSub", sTerm(markSpace), sTerm(markTopic)), vlib.App("OSubR", "true"))
 
 	frames := map[int]sentFrame{} // event index -> frame sent / captured
 	identOf := map[int]int{}
@@ -458,7 +487,7 @@ func (g *gen) clientCase(h cliHist) {
 			}
 		}
 		inv := d.takeInv()
-		add(vlib.App("CRecv", zTerm(now), msgTerm(p, ident, nAcc, sigTerm)), vlib.App("ORecv", status, strsTerm(inv)))
+		add(vlib.App("CRecv", zTerm(now), msgTerm(p, ident, nAcc, sigTerm)), vlib.App("ORecv", status, bssTerm(inv)))
 		add(sev, sob)
 		if len(inv) > 0 {
 			delivered++
@@ -512,7 +541,7 @@ func (g *gen) clientCase(h cliHist) {
 				k := space + "\x00" + pat
 				d.unsubs[k] = append(d.unsubs[k], un)
 			}
-			add(vlib.App("CSub", strTerm(space), strTerm(pat)), vlib.App("OSubR", vlib.Bool(err == nil)))
+			add(vlib.App("CSub", sTerm(space), sTerm(pat)), vlib.App("OSubR", vlib.Bool(err == nil)))
 		case "unsub":
 			space, pat := d.expand(e.Space), d.expand(e.Pat)
 			k := space + "\x00" + pat
@@ -520,11 +549,11 @@ func (g *gen) clientCase(h cliHist) {
 				l[len(l)-1]()
 				d.unsubs[k] = l[:len(l)-1]
 			}
-			add(vlib.App("CUnsub", strTerm(space), strTerm(pat)), "ONoneC")
+			add(vlib.App("CUnsub", sTerm(space), sTerm(pat)), "ONoneC")
 		case "setmember":
 			space := d.expand(e.Space)
 			d.mem.set(space, d.accs[e.Acct].name, e.B)
-			add(vlib.App("CSetMember", strTerm(space), vlib.N(uint64(e.Acct)), vlib.Bool(e.B)), "ONoneC")
+			add(vlib.App("CSetMember", sTerm(space), vlib.N(uint64(e.Acct)), vlib.Bool(e.B)), "ONoneC")
 		case "recv":
 			f := e.Msg
 			p := &pubsubproto.Publish{SpaceId: d.expand(f.Space), Topic: d.expand(f.Topic), MsgId: []byte(unhx(f.Id)),
@@ -543,7 +572,7 @@ func (g *gen) clientCase(h cliHist) {
 					panic(err)
 				}
 				p.Signature = sig
-				sigTerm = vlib.App("SigOf", vlib.N(uint64(e.Sign)), vlib.Bytes(data))
+				sigTerm = vlib.App("SigOf", vlib.N(uint64(e.Sign)), bsTerm(data))
 			} else {
 				js := sha256.Sum256([]byte(fmt.Sprintf("junk-sig-%d-%d", h.Cfg.KeySeed, i)))
 				p.Signature = append(js[:], js[:]...)
@@ -602,7 +631,7 @@ func (g *gen) clientCase(h cliHist) {
 				okSig, _ := d.accs[0].keys.SignKey.GetPublic().Verify(data, own.Signature)
 				st := vlib.App("SigJunk", "0")
 				if okSig {
-					st = vlib.App("SigOf", "0", vlib.Bytes(data))
+					st = vlib.App("SigOf", "0", bsTerm(data))
 				}
 				frames[i] = sentFrame{p: own, sigTerm: st}
 				identOf[i] = -1
@@ -611,8 +640,8 @@ func (g *gen) clientCase(h cliHist) {
 				}
 			}
 			inv := d.takeInv()
-			add(vlib.App("CPub", strTerm(space), strTerm(topic), vlib.Bytes(id), vlib.N(uint64(e.PLen))),
-				vlib.App("OPubR", vlib.Bool(perr == nil), strsTerm(inv)))
+			add(vlib.App("CPub", sTerm(space), sTerm(topic), bsTerm(id), vlib.N(uint64(e.PLen))),
+				vlib.App("OPubR", vlib.Bool(perr == nil), bssTerm(inv)))
 			add(sev, sob)
 			if perr == nil {
 				g.w.Stat("cli.pub.ok")
@@ -629,7 +658,7 @@ func (g *gen) clientCase(h cliHist) {
 	}
 	names := make([]string, nAcc)
 	for i := range names {
-		names[i] = strTerm(d.accs[i].name)
+		names[i] = sTerm(d.accs[i].name)
 	}
 	cfgT := vlib.App("mkCC", vlib.N(uint64(h.Cfg.Ring)), zTerm(h.Cfg.SkewMs), vlib.N(uint64(h.Cfg.MaxPat)),
 		vlib.N(uint64(h.Cfg.MaxPay)), "0", vlib.List(names))
@@ -666,8 +695,8 @@ func (g *gen) signCase(c signCase) {
 		TimestampMilli: c.Ts, Payload: []byte(unhx(c.Payload)), Relayed: c.Relayed,
 		Identity: []byte("ignored"), Signature: []byte("ignored")}
 	data := pubsub.VerifSignData(p)
-	term := vlib.App("CSign", strTerm(p.SpaceId), strTerm(p.Topic), vlib.Bytes(p.MsgId), strTerm(p.KeyId), zTerm(c.Ts),
-		vlib.Bytes(p.Payload), vlib.Bytes(data))
+	term := vlib.App("CSign", sTerm(p.SpaceId), sTerm(p.Topic), bsTerm(p.MsgId), sTerm(p.KeyId), zTerm(c.Ts),
+		bsTerm(p.Payload), bsTerm(data))
 	dsc := desc{Kind: "sign", Data: mustJSON(c)}
 	key, _ := json.Marshal(c)
 	g.w.Add(term, dsc, "g:"+string(key), len(p.SpaceId)+len(p.Topic)+len(p.MsgId)+len(p.KeyId)+len(p.Payload) > 0)
@@ -688,7 +717,7 @@ func (g *gen) dedupCase(c dedupCase) {
 	for i, h := range c.Ids {
 		id := []byte(unhx(h))
 		b := dd.Seen(id)
-		ids[i] = vlib.Bytes(id)
+		ids[i] = bsTerm(id)
 		res[i] = vlib.Bool(b)
 		if b {
 			anyTrue = true
@@ -721,17 +750,15 @@ func randBytes(r *vlib.Rand, n int) []byte {
 	return b
 }
 
+// hexId: a printable 16-byte message id (hex-encoded for the JSON description)
 func hexId(tag string, n int) string {
-	id := make([]byte, 16)
-	copy(id, tag)
-	binary.LittleEndian.PutUint32(id[12:], uint32(n))
-	return hex.EncodeToString(id)
+	return hex.EncodeToString([]byte(fmt.Sprintf("%-11.11s%05d", tag, n%100000)))
 }
 
 func (g *gen) genClient(r *vlib.Rand, thorough bool, budget int) {
-	n := 140 * budget
+	n := 70 * budget
 	if thorough {
-		n = 3000 * budget
+		n = 1500 * budget
 	}
 	pats := []string{">", "a/*", "a/b", "b", "ab", "*/b", "acc/>", "acc/x/@1", "acc/*/@0", "a/>", "bad//p", "*"}
 	topics := []string{"a/b", "a/c", "b", "ab", "c/d/e", "acc/x/@1", "acc/x/@2", "acc/x/@0", "acc/y/@1"}
@@ -778,7 +805,7 @@ func (g *gen) genClient(r *vlib.Rand, thorough bool, budget int) {
 			return f
 		}
 		var sentIdx []int // indices of recv/pub events
-		nEv := 6 + rr.Intn(18)
+		nEv := 5 + rr.Intn(12)
 		for k := 0; k < nEv; k++ {
 			idx := len(evs)
 			switch x := rr.Intn(100); {
@@ -898,7 +925,7 @@ func (g *gen) genClient(r *vlib.Rand, thorough bool, budget int) {
 		g.clientCase(cliHist{Cfg: c, Evs: evs})
 	}
 	// replay-window scenarios: G, then k other accepted messages, then G again (ts = 0 and ts = now)
-	m := 4 * budget
+	m := 2 * budget
 	if thorough {
 		m = 40 * budget
 	}
@@ -932,7 +959,7 @@ func (g *gen) genClient(r *vlib.Rand, thorough bool, budget int) {
 }
 
 func (g *gen) genSign(r *vlib.Rand, thorough bool, budget int) {
-	n := 300 * budget
+	n := 200 * budget
 	if thorough {
 		n = 5000 * budget
 	}
@@ -972,7 +999,7 @@ func (g *gen) genSign(r *vlib.Rand, thorough bool, budget int) {
 }
 
 func (g *gen) genDedup(r *vlib.Rand, thorough bool, budget int) {
-	n := 200 * budget
+	n := 150 * budget
 	if thorough {
 		n = 4000 * budget
 	}
